@@ -1,8 +1,555 @@
-//! C02 — not built yet.
+//! C02 — word-level bit kernels exact on every word (DESIGN §4 C02).
+//!
+//! Subjects: `select_in_word` (host dispatch) and, through the
+//! `cfg(succinctly_verif)` hooks, the CTZ loop, the broadword variant, the PDEP
+//! path (if the host has BMI2) and the byte select table; `popcount_word`,
+//! `popcount_word_portable`, `popcount_words`; `block_popcount_portable` and the
+//! AVX2 block kernel (if the host has AVX2); `scan_select`, `scan_select_scalar`,
+//! `select_from`; `find_close_in_word`, `find_unmatched_close_in_word`.
+//! Every oracle is a one-bit-at-a-time loop written here.
 use crate::engine::*;
+use crate::gen::bits;
+use serde_json::json;
+use succinctly::bits::{
+    block_popcount_portable, popcount_word, popcount_word_portable, popcount_words, scan_select,
+    scan_select_scalar, select_from, BLOCK,
+};
+use succinctly::select_in_word;
+use succinctly::trees::{find_close_in_word, find_unmatched_close_in_word};
+use succinctly::verif_hooks as hooks;
 
-pub const RULE: &str = "not built";
+pub const RULE: &str = "Enumerated families (all 64 one-bit words, all 2016 two-bit words, all 2^16 16-bit patterns in each of the 4 lanes over a 0-background and a 1-background plus as a 4x periodic fill; all 256 bytes for the byte table) and generated words (per-byte classes {00,01,80,FF,random}, low/high masks, runs, AND-thinned, OR-thickened, k-bit-cleared, single/two-bit, random) each with EVERY k in 0..=65 plus {100, 2^31, u32::MAX}; every p in 0..=65 for the parenthesis kernels; 8-word blocks and 0..600-word slices from G-bits for popcounts; (words,start_word,remaining) with remaining at the total-ones boundary for the scan. Oracles are bit-at-a-time loops. Non-trivial: popcount(x) in 1..=63 (k then covers popcount-1, popcount, popcount+1); slices/blocks with >=1 set bit; scans that leave the 8-word prologue; distinct by hash of the word(s).";
+
+const K_EXTRA: [u32; 3] = [100, 1 << 31, u32::MAX];
+
+// ------------------------------------------------------------------ oracles
+
+/// positions of the set bits, lowest first (bit-at-a-time)
+fn ones_of(x: u64) -> ([u8; 64], u32) {
+    let mut pos = [0u8; 64];
+    let mut n = 0u32;
+    for i in 0..64u32 {
+        if (x >> i) & 1 == 1 {
+            pos[n as usize] = i as u8;
+            n += 1;
+        }
+    }
+    (pos, n)
+}
+
+fn popcount_model(x: u64) -> u32 {
+    let mut n = 0;
+    for i in 0..64 {
+        if (x >> i) & 1 == 1 {
+            n += 1;
+        }
+    }
+    n
+}
+
+/// first position where the running excess (1=+1, 0=-1) drops below 0, else 64
+fn unmatched_close_model(x: u64) -> u32 {
+    let mut e: i32 = 0;
+    for i in 0..64u32 {
+        if (x >> i) & 1 == 1 {
+            e += 1;
+        } else {
+            e -= 1;
+            if e < 0 {
+                return i;
+            }
+        }
+    }
+    64
+}
+
+fn find_close_model(w: u64, p: u32) -> Option<u32> {
+    if p >= 64 {
+        return None;
+    }
+    if (w >> p) & 1 == 0 {
+        return Some(p); // documented degenerate case
+    }
+    let mut e: i32 = 1;
+    for q in p + 1..64 {
+        if (w >> q) & 1 == 1 {
+            e += 1;
+        } else {
+            e -= 1;
+            if e == 0 {
+                return Some(q);
+            }
+        }
+    }
+    None
+}
+
+// ------------------------------------------------------------------ subjects
+
+#[derive(Clone, Copy)]
+struct Host {
+    bmi2: bool,
+    avx2: bool,
+}
+
+fn host() -> Host {
+    Host {
+        bmi2: hooks::select_in_word_pdep(1, 0).is_some(),
+        avx2: hooks::block_popcount_avx2(&[0u64; 8]).is_some(),
+    }
+}
+
+/// all select subjects on (x, every k) against the bit-loop model
+fn check_select_word(x: u64, h: Host, fam: &str, st: &mut Stats) -> Result<(), Fail> {
+    let (pos, n) = ones_of(x);
+    let one = |k: u32| -> Result<(), Fail> {
+        let e = if k < n { pos[k as usize] as u32 } else { 64 };
+        let info = || json!({"x": format!("{:#018x}", x), "k": k, "family": fam, "popcount": n});
+        check_eq!("C02/select_in_word/dispatch", e, select_in_word(x, k), info());
+        check_eq!("C02/select_in_word/ctz", e, hooks::select_in_word_ctz(x, k), info());
+        check_eq!("C02/select_in_word/broadword", e, hooks::select_in_word_broadword(x, k), info());
+        if h.bmi2 {
+            check_eq!("C02/select_in_word/pdep", Some(e), hooks::select_in_word_pdep(x, k), info());
+        }
+        Ok(())
+    };
+    for k in 0..=65u32 {
+        one(k)?;
+    }
+    for k in K_EXTRA {
+        one(k)?;
+    }
+    st.evals((66 + K_EXTRA.len() as u64) * if h.bmi2 { 4 } else { 3 });
+    Ok(())
+}
+
+fn check_popcount_word(x: u64, fam: &str, st: &mut Stats) -> Result<(), Fail> {
+    let e = popcount_model(x);
+    let info = || json!({"x": format!("{:#018x}", x), "family": fam});
+    check_eq!("C02/popcount_word", e, popcount_word(x), info());
+    check_eq!("C02/popcount_word_portable", e, popcount_word_portable(x), info());
+    check_eq!("C02/popcount_words/len1", e as usize, popcount_words(&[x]), info());
+    st.evals(3);
+    Ok(())
+}
+
+fn check_paren_word(w: u64, fam: &str, st: &mut Stats) -> Result<(), Fail> {
+    let info = |p: u32| json!({"word": format!("{:#018x}", w), "p": p, "family": fam});
+    check_eq!("C02/find_unmatched_close_in_word", unmatched_close_model(w), find_unmatched_close_in_word(w), info(0));
+    for p in 0..=65u32 {
+        check_eq!("C02/find_close_in_word", find_close_model(w, p), find_close_in_word(w, p), info(p));
+    }
+    for p in [100u32, 1 << 31, u32::MAX] {
+        check_eq!("C02/find_close_in_word", None::<u32>, find_close_in_word(w, p), info(p));
+    }
+    st.evals(70);
+    Ok(())
+}
+
+// ------------------------------------------------------------------ enumerated families
+
+const N_ONE: u64 = 64;
+const N_TWO: u64 = 2016;
+const N_PAT: u64 = 65536 * 9;
+
+/// item `i` of the enumerated word family, with its family name
+fn enumerated_word(i: u64) -> (u64, &'static str) {
+    if i < N_ONE {
+        return (1u64 << i, "one-bit");
+    }
+    let i = i - N_ONE;
+    if i < N_TWO {
+        // pair (a<b) number i
+        let mut a = 0u64;
+        let mut rem = i;
+        loop {
+            let row = 63 - a;
+            if rem < row {
+                break;
+            }
+            rem -= row;
+            a += 1;
+        }
+        let b = a + 1 + rem;
+        return ((1u64 << a) | (1u64 << b), "two-bit");
+    }
+    let i = i - N_TWO;
+    let pat = i & 0xFFFF;
+    match i >> 16 {
+        v @ 0..=3 => (pat << (16 * v), "pattern16-lane-over-zeros"),
+        v @ 4..=7 => {
+            let sh = 16 * (v - 4);
+            ((pat << sh) | !(0xFFFFu64 << sh), "pattern16-lane-over-ones")
+        }
+        _ => (pat.wrapping_mul(0x0001_0001_0001_0001), "pattern16-periodic"),
+    }
+}
+
+const N_ENUM: u64 = N_ONE + N_TWO + N_PAT;
+
+// ------------------------------------------------------------------ generated words
+
+const BYTE_CLASS: [u8; 4] = [0x00, 0x01, 0x80, 0xFF];
+
+pub fn gen_word(u: &mut Src) -> (u64, &'static str) {
+    match u.below(14) {
+        0 => {
+            // each byte from {00, 01, 80, FF, random}
+            let mut x = 0u64;
+            for b in 0..8 {
+                let c = u.below(5);
+                let v = if c < 4 { BYTE_CLASS[c] } else { u.byte() };
+                x |= (v as u64) << (8 * b);
+            }
+            (x, "byte-classes")
+        }
+        1 => {
+            let n = u.below(65) as u32;
+            (if n == 64 { u64::MAX } else { (1u64 << n) - 1 }, "low-mask")
+        }
+        2 => {
+            let n = u.below(65) as u32;
+            (if n == 64 { u64::MAX } else { !((1u64 << n) - 1) }, "high-mask")
+        }
+        3 => {
+            // a run of ones anywhere
+            let a = u.below(64) as u32;
+            let l = u.range(1, 64 - a as usize) as u32;
+            let m = if l == 64 { u64::MAX } else { (1u64 << l) - 1 };
+            (m << a, "run")
+        }
+        4 => (u.u64() & u.u64() & u.u64(), "thinned"),
+        5 => (u.u64() | u.u64() | u.u64(), "thickened"),
+        6 => {
+            // all ones with a few bits cleared (k = 63 / 62 / popcount boundary)
+            let mut x = u64::MAX;
+            for _ in 0..u.range(1, 3) {
+                x &= !(1u64 << u.below(64));
+            }
+            (x, "ones-minus-few")
+        }
+        7 => (1u64 << u.below(64), "one-bit"),
+        8 => ((1u64 << u.below(64)) | (1u64 << u.below(64)) | (1u64 << 63), "with-bit63"),
+        9 => {
+            let p = u.byte() as u64;
+            (p.wrapping_mul(0x0101_0101_0101_0101), "byte-periodic")
+        }
+        10 => {
+            // random in one byte lane, fixed elsewhere: byte-lane carries
+            let lane = u.below(8) as u32;
+            let bg = *u.pick(&[0u64, u64::MAX, 0x8080_8080_8080_8080, 0x0101_0101_0101_0101]);
+            let m = 0xFFu64 << (8 * lane);
+            ((bg & !m) | ((u.byte() as u64) << (8 * lane)), "one-random-lane")
+        }
+        11 => {
+            // random walk: parenthesis-like
+            let mut x = 0u64;
+            let mut e = 0i32;
+            let bias = u.below(3);
+            for i in 0..64 {
+                let open = match bias {
+                    0 => u.bool(),
+                    1 => e <= 0 || u.ratio(1, 2),
+                    _ => u.ratio(2, 3),
+                };
+                if open {
+                    x |= 1u64 << i;
+                    e += 1;
+                } else {
+                    e -= 1;
+                }
+            }
+            (x, "paren-walk")
+        }
+        12 => {
+            // opens then closes then opens...: long monotone runs
+            let mut x = 0u64;
+            let mut i = 0usize;
+            let mut open = u.bool();
+            while i < 64 {
+                let l = u.range(1, 40).min(64 - i);
+                if open {
+                    let m = if l == 64 { u64::MAX } else { (1u64 << l) - 1 };
+                    x |= m << i;
+                }
+                i += l;
+                open = !open;
+            }
+            (x, "monotone-runs")
+        }
+        _ => (u.u64(), "random"),
+    }
+}
+
+// ------------------------------------------------------------------ run
 
 pub fn run(cx: &mut Ctx) {
-    cx.infra("check not built");
+    cx.assume("reference models: one-bit-at-a-time loops over the word / the slice (harness code)");
+    cx.assume("the CTZ loop, broadword variant, PDEP path, byte table and AVX2 block kernel are reached through #[cfg(succinctly_verif)] wrappers that only forward their arguments (commit 'verif hooks' in /repo)");
+    cx.assume("2^64 words cannot be enumerated: enumerated families + structured random words stand in for 'every word'");
+    let h = host();
+    if !h.bmi2 {
+        cx.note("host CPU has no BMI2: subject select_in_word_pdep skipped");
+    }
+    if !h.avx2 {
+        cx.note("host CPU has no AVX2: subject block_popcount_avx2 skipped");
+    }
+    cx.extra.insert(
+        "host_paths".into(),
+        json!({"bmi2_pdep_subject": h.bmi2, "avx2_block_popcount_subject": h.avx2}),
+    );
+
+    // -------- enumerated: select + popcount + parenthesis kernels on the structured families
+    cx.exhaustive(
+        "enumerated-words",
+        "all one-bit words, all two-bit words, every 16-bit pattern in each 16-bit lane over zeros / over ones and as a periodic fill (591 904 words): select subjects x every k in 0..=65 U {100,2^31,u32::MAX}; popcounts; find_close_in_word x every p in 0..=65 U {100,2^31,u32::MAX}; find_unmatched_close_in_word",
+        true,
+        |shard, nshards, st| {
+            let mut i = shard as u64;
+            while i < N_ENUM {
+                let (x, fam) = enumerated_word(i);
+                st.cases += 1;
+                st.class(fam);
+                let pc = popcount_model(x);
+                if (1..=63).contains(&pc) {
+                    st.nontrivial(mix64(x));
+                }
+                if i % 65536 == 77 {
+                    st.sample(fam, || json!({"x": format!("{:#018x}", x)}));
+                }
+                check_select_word(x, h, fam, st)?;
+                check_popcount_word(x, fam, st)?;
+                check_paren_word(x, fam, st)?;
+                i += nshards as u64;
+            }
+            Ok(())
+        },
+    );
+    cx.exhaustive(
+        "byte-table",
+        "select_in_byte(b,k) for all 256 bytes x k in 0..=9 U {100,2^31,u32::MAX} against a bit loop (8 when fewer than k+1 set bits)",
+        true,
+        |shard, _n, st| {
+            if shard != 0 {
+                return Ok(());
+            }
+            for b in 0..=255u8 {
+                st.cases += 1;
+                if b != 0 {
+                    st.nontrivial(b as u64);
+                }
+                for k in (0..=9u32).chain(K_EXTRA) {
+                    let mut c = 0u32;
+                    let mut e = 8u32;
+                    for i in 0..8u32 {
+                        if (b >> i) & 1 == 1 {
+                            if c == k {
+                                e = i;
+                                break;
+                            }
+                            c += 1;
+                        }
+                    }
+                    check_eq!("C02/select_in_byte", e, hooks::select_in_byte(b, k), {"byte": b, "k": k});
+                    st.evals(1);
+                }
+            }
+            Ok(())
+        },
+    );
+
+    // -------- generated words: select / popcount / parenthesis kernels
+    cx.check(
+        "words-generated",
+        RULE,
+        Budget { quick: 250_000, thorough: 8_000_000, max_len: 1200 },
+        |u, st| {
+            let n = u.range(1, 32);
+            let mut batch: Vec<(u64, &'static str)> = Vec::with_capacity(n);
+            for _ in 0..n {
+                batch.push(gen_word(u));
+            }
+            st.describe(|| json!({"words": batch.iter().map(|(x, f)| json!([format!("{:#018x}", x), f])).collect::<Vec<_>>()}));
+            st.size(n);
+            for &(x, fam) in &batch {
+                st.class(fam);
+                let pc = popcount_model(x);
+                st.class_if(pc == 0, "popcount=0");
+                st.class_if(pc == 64, "popcount=64");
+                st.class_if(pc == 63, "popcount=63");
+                st.class_if((x >> 63) & 1 == 1, "bit63-set");
+                if (1..=63).contains(&pc) {
+                    st.class("nontrivial");
+                    st.nontrivial(mix64(x));
+                }
+                st.sample(fam, || json!({"x": format!("{:#018x}", x), "popcount": pc}));
+                check_select_word(x, h, fam, st)?;
+                check_popcount_word(x, fam, st)?;
+                check_paren_word(x, fam, st)?;
+            }
+            Ok(())
+        },
+    );
+    for cl in ["byte-classes", "ones-minus-few", "one-random-lane", "paren-walk", "monotone-runs", "popcount=63", "bit63-set", "nontrivial"] {
+        cx.require_class("words-generated", cl, 50);
+    }
+
+    // -------- popcount over slices and 8-word blocks
+    cx.check(
+        "popcount-slices-blocks",
+        "G-bits word vectors (0..=600 words, all density classes incl. all-ones) read as a whole slice, at every sub-slice offset 0..=8 and boundary lengths (0,1,7,8,9,15,16,17,31,32,33,63,64,65); every aligned and a sampled unaligned 8-word window as a block: popcount_words, block_popcount_portable and the AVX2 block kernel against a bit loop. Non-trivial: >=1 set bit.",
+        Budget { quick: 100_000, thorough: 5_000_000, max_len: 5000 },
+        |u, st| {
+            let (mut words, mut d) = bits::words(u, 600);
+            if u.ratio(1, 6) {
+                // force a block-sized or all-ones vector
+                let n = *u.pick(&[8usize, 16, 64, 9, 24]);
+                if u.bool() {
+                    d = bits::Density::One;
+                }
+                words = bits::words_of(u, n, d);
+            }
+            let pre: Vec<usize> = {
+                let mut v = Vec::with_capacity(words.len() + 1);
+                let mut a = 0usize;
+                v.push(0);
+                for &w in &words {
+                    a += popcount_model(w) as usize;
+                    v.push(a);
+                }
+                v
+            };
+            let n = words.len();
+            st.describe(|| json!({"density": format!("{:?}", d), "words_hex": words.iter().map(|w| format!("{:016x}", w)).collect::<Vec<_>>()}));
+            st.size(n);
+            st.class(&format!("density-{:?}", d));
+            st.class_if(n >= 8, "has-block");
+            st.class_if(n > 64, "words>64");
+            if pre[n] > 0 {
+                st.class("nontrivial");
+                st.nontrivial(hash_words(&words));
+            }
+            st.sample(&format!("{:?}", d), || json!({"n_words": n, "ones": pre[n], "first_words": words.iter().take(3).map(|w| format!("{:016x}", w)).collect::<Vec<_>>()}));
+            let info = |a: usize, b: usize| json!({"slice": [a, b], "n_words": n, "density": format!("{:?}", d)});
+            // slices
+            let mut ranges: Vec<(usize, usize)> = vec![(0, n)];
+            for a in 0..=8usize.min(n) {
+                ranges.push((a, n));
+                for l in [0usize, 1, 7, 8, 9, 15, 16, 17, 31, 32, 33, 63, 64, 65] {
+                    if a + l <= n {
+                        ranges.push((a, a + l));
+                    }
+                }
+            }
+            for _ in 0..8 {
+                let a = u.range(0, n);
+                let b = u.range(a, n);
+                ranges.push((a, b));
+            }
+            for &(a, b) in &ranges {
+                check_eq!("C02/popcount_words", pre[b] - pre[a], popcount_words(&words[a..b]), info(a, b));
+            }
+            st.evals(ranges.len() as u64);
+            // blocks
+            if n >= BLOCK {
+                let mut starts: Vec<usize> = (0..=n - BLOCK).step_by(BLOCK).collect();
+                for _ in 0..6 {
+                    starts.push(u.range(0, n - BLOCK));
+                }
+                for &a in &starts {
+                    let blk = &words[a..a + BLOCK];
+                    let e = pre[a + BLOCK] - pre[a];
+                    st.class_if(e == 512, "block-all-ones");
+                    check_eq!("C02/block_popcount_portable", e, block_popcount_portable(blk), info(a, a + BLOCK));
+                    if h.avx2 {
+                        check_eq!("C02/block_popcount_avx2", Some(e), hooks::block_popcount_avx2(blk), info(a, a + BLOCK));
+                        // a longer slice: the kernel reads exactly the first BLOCK words
+                        check_eq!("C02/block_popcount_avx2/long-slice", Some(e), hooks::block_popcount_avx2(&words[a..]), info(a, n));
+                    }
+                }
+                st.evals(starts.len() as u64 * if h.avx2 { 3 } else { 1 });
+            }
+            Ok(())
+        },
+    );
+    cx.require_class("popcount-slices-blocks", "has-block", 50);
+    cx.require_class("popcount-slices-blocks", "block-all-ones", 20);
+    cx.require_class("popcount-slices-blocks", "nontrivial", 50);
+
+    // -------- scan_select / scan_select_scalar / select_from
+    cx.check(
+        "scan-select",
+        "G-bits word vectors (0..=600 words; sparse/bursty classes make scans skip whole 8-word blocks) x start_word in 0..=words+2 x remaining in {0, ones_from_start-1, ones_from_start, +1, random, usize::MAX}: scan_select, scan_select_scalar (word, in-word rank) and select_from (absolute bit) against a per-word bit-loop walk. Non-trivial: the answer lies past the 8-word prologue (block loop or tail reached).",
+        Budget { quick: 200_000, thorough: 10_000_000, max_len: 5000 },
+        |u, st| {
+            let (words, d) = bits::words(u, 600);
+            let n = words.len();
+            let pops: Vec<usize> = words.iter().map(|&w| popcount_model(w) as usize).collect();
+            st.describe(|| json!({"density": format!("{:?}", d), "words_hex": words.iter().map(|w| format!("{:016x}", w)).collect::<Vec<_>>()}));
+            st.size(n);
+            st.class(&format!("density-{:?}", d));
+            let nq = 24;
+            let mut nontrivial = false;
+            for qi in 0..nq {
+                let start = match u.below(12) {
+                    0 | 1 => 0,
+                    2 => n + u.below(3),
+                    3 | 4 => {
+                        let back = u.range(1, 9);
+                        n.saturating_sub(back)
+                    }
+                    _ => u.range(0, n),
+                };
+                let from: usize = if start < n { pops[start..].iter().sum() } else { 0 };
+                let rem = match (qi + u.below(2)) % 10 {
+                    0 => 0,
+                    1 | 2 => from.saturating_sub(1),
+                    3 => from,
+                    4 => from + 1,
+                    5 => usize::MAX,
+                    _ => u.range(0, from.saturating_sub(1)),
+                };
+                // model: walk words from `start`
+                let mut e: Option<(usize, usize)> = None;
+                let mut r = rem;
+                let mut i = start;
+                while i < n {
+                    if pops[i] > r {
+                        e = Some((i, r));
+                        break;
+                    }
+                    r -= pops[i];
+                    i += 1;
+                }
+                let e_abs = e.map(|(wi, r)| {
+                    let (pos, _) = ones_of(words[wi]);
+                    wi * 64 + pos[r] as usize
+                });
+                if let Some((wi, _)) = e {
+                    if wi >= start + 8 {
+                        nontrivial = true;
+                        st.class("answer-past-prologue");
+                        st.class_if(wi >= start + 8 + 16, "skipped>=2-blocks");
+                    }
+                } else {
+                    st.class("none");
+                }
+                st.class_if(start >= n, "start>=len");
+                let info = || json!({"start_word": start, "remaining": rem, "n_words": n, "density": format!("{:?}", d)});
+                check_eq!("C02/scan_select", e, scan_select(&words, start, rem), info());
+                check_eq!("C02/scan_select_scalar", e, scan_select_scalar(&words, start, rem), info());
+                check_eq!("C02/select_from", e_abs, select_from(&words, start, rem), info());
+                st.evals(3);
+            }
+            if nontrivial {
+                st.class("nontrivial");
+                st.nontrivial(hash_words(&words));
+            }
+            st.sample(&format!("{:?}", d), || json!({"n_words": n, "first_words": words.iter().take(3).map(|w| format!("{:016x}", w)).collect::<Vec<_>>()}));
+            Ok(())
+        },
+    );
+    for cl in ["answer-past-prologue", "skipped>=2-blocks", "none", "start>=len"] {
+        cx.require_class("scan-select", cl, 50);
+    }
 }
